@@ -29,7 +29,7 @@ static struct block_builder *small_builder(size_t ri)
 	struct block_builder *b = my_calloc(1, sizeof(*b));
 	b->block_restart_interval = ri;
 	b->buf = ubuf_init(BUFCAP);
-	b->last_key = ubuf_init(2);
+	b->last_key = ubuf_init(KLMAX);	/* no growth of the key buffer: growth is exercised on buf via BUFCAP */
 	b->restarts = uint64_vec_init(1);
 	uint64_vec_add(b->restarts, 0);
 	return b;
